@@ -91,6 +91,9 @@ PROPS = {
 
 
 # properties whose theorems speak about model functions that stage 2 of the translator regenerates from the source
+# properties whose theorems speak about model functions importing the stage-1 kernel (filter_utils, validators, COMP_OP_MAP,
+# get_num_processes_to_launch, split_table): everything except the converter (C16) and the profiler (C17)
+GEN1_PROPS = {'C%02d' % i for i in range(1, 16)}
 GENLOOPS_PROPS = {'C01', 'C02', 'C03', 'C04', 'C05', 'C06', 'C07', 'C08', 'C09', 'C10', 'C11', 'C13', 'C14', 'C17'}
 
 AUDIT_TEMPLATE = """IMPORTS
@@ -141,7 +144,7 @@ def tree_hash():
                 p = os.path.join(root, f)
                 h.update(p.encode())
                 h.update(open(p, 'rb').read())
-    for f in ('tools/py2lean.py', 'tools/py2lean2.py'):
+    for f in ('tools/py2lean.py', 'tools/py2lean2.py', 'tools/check.py'):
         h.update(open(os.path.join(VERIF, f), 'rb').read())
     return h.hexdigest()[:24]
 
@@ -193,7 +196,7 @@ def build_and_audit(pid, tier, log):
         res['translator'] = json.loads(out.strip().splitlines()[-1])
     except Exception:       # noqa: BLE001
         res['translator'] = {'error': out[-500:]}
-    if rc != 0 or res['translator'].get('error'):
+    if (rc != 0 or res['translator'].get('error')) and pid in GEN1_PROPS:
         res['broken'].append({'kind': 'translator', 'detail': res['translator'].get('error')})
     # stage 2: the loop helpers (projection helpers, token ordering, OverlapFilter/PositionFilter.find_candidates,
     # PositionIndex.build) are re-translated into Gen/Loops.lean; Proofs/GenLoops.lean proves each EQUAL to the hand model
@@ -226,6 +229,9 @@ def build_and_audit(pid, tier, log):
         res.update({k: c[k] for k in ('build_ok', 'axioms', 'broken_build', 'theorems')})
         res['broken'] += c['broken_build']
         res['cached'] = True
+        bad = forbidden_tokens()            # cheap, so not left to the cache
+        if bad:
+            res['broken'].append({'kind': 'forbidden-token', 'detail': '; '.join(bad[:5])})
         return res
     if uses_loops and not (rc2 != 0 or res['translator2'].get('error')):
         t0 = time.time()
@@ -277,7 +283,9 @@ def build_and_audit(pid, tier, log):
         broken_build.append({'kind': 'forbidden-token', 'detail': '; '.join(bad[:5])})
     res['broken'] += broken_build
     res['broken_build'] = broken_build
-    if not any(x['kind'] in ('model-build',) for x in broken_build):
+    if not broken_build:
+        # only SUCCESSFUL builds + audits are cached (keyed by the hash of /repo's sources, lean/, the translators and this
+        # script): a failure is re-examined on every run, so a transient build failure cannot pin a false alarm
         json.dump({'build_ok': res['build_ok'], 'axioms': res['axioms'], 'broken_build': broken_build, 'theorems': res['theorems']}, open(cache_file, 'w'))
     return res
 
@@ -297,10 +305,14 @@ def match_known(v, known):
         m = k['match']
         if m.get('kind') == 'converter_series_inplace_numeric':
             if case.get('entry') == 'converter' and case.get('mode') == 'series' and case.get('inplace') and \
-                    case.get('dtype', '').startswith(('int', 'float')) and any(c is not None for c in case.get('values', [])):
+                    case.get('dtype', '').startswith(('int', 'float')) and any(c is not None for c in case.get('values', [])) and \
+                    'raised TypeError' in v.get('what', '') and 'Invalid value' in v.get('what', ''):
                 return k
         elif m.get('kind') == 'overlap_filter_pair_empty_string':
-            if case.get('entry') == 'filter' and case.get('kind') == 'overlap' and '' in (case.get('strings') or []) and 'filter_pair' in v.get('what', ''):
+            # exactly K3: BOTH strings empty, a tokenizer that yields tokens for '' (padding q-grams), and the message about filter_pair
+            tkz = case.get('tokenizer') or {}
+            if case.get('entry') == 'filter' and case.get('kind') == 'overlap' and (case.get('strings') or [None]) == ['', ''] and \
+                    tkz.get('kind') == 'qgram' and tkz.get('padding') and 'filter_pair' in v.get('what', ''):
                 return k
         elif m.get('kind') == 'cosine_size_window_admits_zero':
             # the count 0 inside the COSINE size window although round(t*t*n, 4) == 0 only because of the 4-decimal slack
@@ -355,36 +367,67 @@ def match_known(v, known):
                         return k
         elif m.get('kind') == 'tiny_threshold':
             t = case.get('threshold')
-            if isinstance(t, float) and 0 < t < float(m['below']):
+            if isinstance(t, float) and 0 < t < float(m['below']) and \
+                    re.search(r'raised (OverflowError|ZeroDivisionError)', v.get('what', '')):
                 return k
     return None
 
 
-def mismatch_known(b, known):
-    """correspondence mismatches that are a listed finding (the model follows the documented behaviour)"""
+def _col_strings(tb, attr):
+    """string cells of column `attr` of a frame in request form"""
+    if not isinstance(tb, dict) or attr not in (tb.get('columns') or []):
+        return []
+    j = tb['columns'].index(attr)
+    return [r[j]['s'] for r in tb.get('rows', []) if j < len(r) and isinstance(r[j], dict) and 's' in r[j]]
+
+
+def _lev_wrong_pair(ls, rs):
+    """is there a pair of strings on which the dependency's Levenshtein differs from the true distance (K8)?"""
+    import oracle as O
+
+    def hi(x):
+        return any(ord(ch) > 255 for ch in x)        # only beyond Latin-1 can the low bytes collide
+    for a in ls:
+        for b2 in rs:
+            if (hi(a) or hi(b2)) and O.LEV(a, b2) != int(O.LEV_REAL(a, b2)):
+                return True
+    return False
+
+
+def _ed_call_affected(call):
+    return call.get('which') == 'edit_distance' and \
+        _lev_wrong_pair(_col_strings(call.get('ltable'), call.get('l_attr')), _col_strings(call.get('rtable'), call.get('r_attr')))
+
+
+def mismatch_known(b, known, pid=None):
+    """correspondence mismatches that are a listed finding (the model follows the documented / true behaviour).
+    Each predicate must pin the finding down: a different disagreement has to stay a mismatch."""
     req = b['request']
     for k in known['findings']:
+        if pid is not None and k['property'] != pid and pid not in k.get('also', []):
+            continue
         m = k['match']
         if m.get('kind') == 'levenshtein_mod_256':
-            # the model's lev is the true Levenshtein distance; the real one is wrong beyond Latin-1
-            strs = []
+            # the model's lev is the true Levenshtein distance; the dependency's is wrong on SOME pairs beyond Latin-1:
+            # the request must contain such a pair in the very call whose answers differ
             if req.get('op') == 'lev':
-                strs = [req.get('a', ''), req.get('b', '')]
-            elif req.get('op') == 'join' and req.get('which') == 'edit_distance':
-                for tb in ('ltable', 'rtable'):
-                    for row in (req.get(tb) or {}).get('rows', []):
-                        strs += [c['s'] for c in row if isinstance(c, dict) and 's' in c]
+                if _lev_wrong_pair([req.get('a', '')], [req.get('b', '')]):
+                    return k
+            elif req.get('op') == 'join':
+                if _ed_call_affected(req):
+                    return k
             elif req.get('op') == 'session':
-                for call in req.get('calls', []):
-                    if call.get('which') == 'edit_distance':
-                        for tb in ('ltable', 'rtable'):
-                            for row in (call.get(tb) or {}).get('rows', []):
-                                strs += [c['s'] for c in row if isinstance(c, dict) and 's' in c]
-            if any(ord(ch) > 255 for x in strs for ch in x):
-                return k
+                try:
+                    mo, ro = b['model']['ok'], b['real']['ok']
+                    differing = [i for i, (x, y) in enumerate(zip(mo['outcomes'], ro['outcomes'])) if json.dumps(x, sort_keys=True) != json.dumps(y, sort_keys=True)]
+                    same_rest = mo.get('flags') == ro.get('flags') and len(mo['outcomes']) == len(ro['outcomes'])
+                except Exception:       # noqa: BLE001
+                    differing, same_rest = [], False
+                if same_rest and differing and all(_ed_call_affected(req['calls'][i]) for i in differing):
+                    return k
         if m.get('kind') == 'converter_series_inplace_numeric' and req.get('op') == 'converter' and req.get('mode') == 'series' \
                 and req.get('inplace') and req.get('dtype') in ('int', 'float') and any(c is not None for c in req.get('values', [])) \
-                and b['real'].get('err') == 'TypeError':
+                and b['real'].get('err') == 'TypeError' and 'ok' in b.get('model', {}):
             return k
     return None
 
@@ -400,6 +443,8 @@ def package_crash(pid, stage, name, n, seed, exc):
     """An exception that escaped from the package itself while a suite / oracle was feeding it generated VALID input
     (the harness catches the exceptions it expects): the property cannot hold on that input.  Returns a violation
     record, or None when the exception did not come out of the package (then it is an infrastructure failure)."""
+    if isinstance(exc, (OSError, MemoryError, KeyboardInterrupt)) or type(exc).__name__ in ('BrokenProcessPool', 'TerminatedWorkerError'):
+        return None
     tb = traceback.extract_tb(exc.__traceback__)
     pkg = os.path.join(os.path.realpath(REPO), 'py_stringsimjoin')
     frames = [f for f in tb if os.path.realpath(f.filename).startswith(pkg)]
@@ -578,11 +623,11 @@ def run_oracles_(pid, tier, seed, stats, log, mult=1, known_hits=None):
         t0 = time.time()
         if cfgp.get('real_processes'):
             rng = random.Random('%s-real-%d' % (pid, seed))
-            extra += O.oracle_real_processes(rng, 25, stats)
-            extra += O.oracle_hash_seeds(seed, 120, stats)
+            extra += guarded(pid, 'real_processes', seed, lambda: O.oracle_real_processes(rng, 25, stats))
+            extra += guarded(pid, 'hash_seeds', seed, lambda: O.oracle_hash_seeds(seed, 120, stats))
             per['real_processes+hash_seeds'] = {'cases': 25 + 3 * 120, 's': round(time.time() - t0, 1)}
         if cfgp.get('datasets'):
-            extra += O.oracle_datasets(random.Random(seed), stats)
+            extra += guarded(pid, 'datasets', seed, lambda: O.oracle_datasets(random.Random(seed), stats))
             per['bundled_datasets'] = {'cases': 15, 's': round(time.time() - t0, 1)}
         for x in extra:
             x['oracle'] = 'thorough-extra'
@@ -732,12 +777,9 @@ def do_replay(path):
     case = v.get('case') or {}
     pid = r['property']
     try:
-        if case.get('entry') == 'join':
+        if case.get('entry') == 'join' and case.get('which') != 'edit_distance' and v.get('oracle') in ('setsim', None):
             ts, L, R, out = O.run_join_case(case)
-            if case['which'] == 'edit_distance':
-                print(out)
-                print('re-run the edit-distance oracle with seed %s to compare' % v.get('seed'))
-            else:
+            if True:
                 vv = O.check_setsim_run(case['which'], ts, L, R, case['l_key'], case['r_key'], case['l_attr'], case['r_attr'], case['threshold'], case['kw'], out,
                                         {pid})
                 vv = [x for x in vv if x['property'] == pid]
@@ -764,7 +806,10 @@ def do_replay(path):
             # deterministic re-run of the oracle that found it
             st = O.Stats()
             os.environ['VERIF_SEED'] = str(v.get('seed', 0))
-            vs, _ = run_oracles(pid, 'quick', v.get('seed', 0), st, [], mult=max(1, int(v.get('n', 1)) // max(1, dict((o[0], o[1]) for o in PROPS[pid]['oracles']).get(v.get('oracle'), 1))))
+            tier0 = r.get('tier', 'quick')
+            budget = dict((o[0], (o[1] * QUICK_SCALE if tier0 == 'quick' else o[2])) for o in PROPS[pid]['oracles']).get(v.get('oracle'), 1)
+            vs, _ = run_oracles(pid, tier0, v.get('seed', 0), st, [], mult=max(1, int(v.get('n', 1)) // max(1, budget)))
+            vs += [x for x in MALFORMED_VIOLATIONS + CRASH_VIOLATIONS]
             same = [x for x in vs if x['what'] == v.get('what')]
             print('violations reproduced by re-running oracle %s with seed %s: %d' % (v.get('oracle'), v.get('seed'), len(same)))
             return 1 if same else 0
@@ -808,7 +853,7 @@ def main():
         total, mism, per_suite = run_suites(pid, tier, seed, stats, log)
         corr_broken = []
         for m in mism:
-            k = mismatch_known(m, known)
+            k = mismatch_known(m, known, pid)
             if k:
                 known_printed[k['id']] = k
             else:
@@ -819,9 +864,9 @@ def main():
             x.update({'oracle': 'malformed-stream', 'seed': seed, 'n': 1})
         viols += MALFORMED_VIOLATIONS
         viols += CRASH_VIOLATIONS
-        for prop, site in known_hits:
+        for prop, kid in known_hits:
             for k in known['findings']:
-                if k['property'] == prop and k['site'].startswith(site.split('(')[0]):
+                if k['property'] == prop and k['id'] == kid:
                     known_printed[k['id']] = k
         real_viol = []
         for v in viols:
@@ -866,7 +911,7 @@ def main():
         replay = None
         if real_viol:
             v0 = real_viol[0]
-            replay = write_replay(pid, {'property': pid, 'kind': 'failing-input', 'what': v0['what'], 'violation': v0,
+            replay = write_replay(pid, {'property': pid, 'tier': tier, 'kind': 'failing-input', 'what': v0['what'], 'violation': v0,
                                         'n_violations': len(real_viol), 'broken': broken, 'how': 'tools/check.py --replay <this file>'})
             print('VIOLATION property=%s replay=%s' % (pid, replay))
             print('  %s' % v0['what'])
@@ -891,7 +936,7 @@ def main():
                 'obligations': max(n_th, 1), 'discharged': discharged,
                 'checker_cmd': 'cd lean && lake build SSJ.Props.%s && lake env lean <#print axioms of every theorem>%s' % (pid, ' && lake env leanchecker SSJ.Props.%s' % pid if tier == 'thorough' else ''),
                 'trusted_base': ['Lean 4.33 kernel' + (' + leanchecker re-check' if tier == 'thorough' else ''),
-                                 'axioms: propext, Classical.choice, Quot.sound only (audited per theorem this run)',
+                                 'axioms: propext, Classical.choice, Quot.sound only (audited per theorem inside Lean; ' + ('result cached from an earlier run on exactly this tree: build_cached=true' if b['cached'] else 'this run') + ')',
                                  'tools/py2lean.py + lean/SSJ/Py/{Val,F64}.lean (semantics of the translated subset; validated by suite gen/f64)',
                                  'tools/py2lean2.py (41 loop functions -> Gen/Loops.lean, Loops2.lean, Loops3.lean; idiom table of tools/translator_tests/NOTES.md; its output is proved equal to the hand model in Proofs/GenLoops.lean, GenLoops2.lean, GenLoops3.lean)',
                                  'hand-written model lean/SSJ/Model/*.lean (validated by the correspondence suites of this run)',
@@ -900,7 +945,7 @@ def main():
                 'programs': len((b['translator'] or {}).get('functions', [])) + len(t2.get('functions', []) if pid in GENLOOPS_PROPS else []),
                 'translated_functions': (b['translator'] or {}).get('functions', []),
                 'translated_loop_functions': {'used_by_this_property': pid in GENLOOPS_PROPS, 'functions': t2.get('functions', []), 'error': t2.get('error'),
-                                              'equality_with_model': 'lean/SSJ/Proofs/GenLoops.lean + GenLoops2.lean (SSJ.Gen2.*_eq: 41 functions), rebuilt this run' if pid in GENLOOPS_PROPS else None},
+                                              'equality_with_model': 'lean/SSJ/Proofs/GenLoops.lean + GenLoops2.lean (SSJ.Gen2.*_eq: 41 functions), ' + ('build result cached for exactly this tree' if b['cached'] else 'rebuilt this run') if pid in GENLOOPS_PROPS else None},
                 'evaluations': total + sum(p['cases'] for p in per_oracle.values()),
                 'distinct_nontrivial': distinct_nontrivial,
                 'rule': 'correspondence cases are generated from one PRNG (VERIF_SEED); distinct = distinct request JSON; non-trivial = the real code '
